@@ -139,16 +139,15 @@ func selectReal(real *realStore, ms []*labels.Matcher) ([]recSeries, error) {
 	if err := set.Err(); err != nil {
 		return nil, err
 	}
+	// read the series set without going through the cursor (part b judges the cursor): Select returns the
+	// concrete *model.SeriesSet
+	ss, ok := set.(*model.SeriesSet)
+	if !ok {
+		return nil, fmt.Errorf("Select returned %T, not *model.SeriesSet (harness needs an update)", set)
+	}
 	var out []recSeries
-	for set.Next() {
-		s := set.At()
-		rs := recSeries{Labels: s.Labels()}
-		it := s.Iterator()
-		for it.Next() {
-			t, v := it.At()
-			rs.Samples = append(rs.Samples, model.Sample{TimestampMs: t, Value: v})
-		}
-		out = append(out, rs)
+	for _, s := range ss.Series {
+		out = append(out, recSeries{Labels: s.Labels(), Samples: append([]model.Sample(nil), s.Samples...)})
 	}
 	return out, nil
 }
